@@ -183,6 +183,35 @@ def tls_sealed_layout(pkt):
     raise ValueError('no x25519 key share')
 
 
+
+def keyshare_last_and_cut(pkt, k):
+    """genuine ClientHello record -> the same hello with key_share moved to the end of the extensions and the last k
+    bytes of the record cut off; record / handshake / extensions / key_share-extension lengths are adjusted (the outer
+    structure stays well formed), the lengths INSIDE key_share still promise a 32-byte x25519 value that is not there"""
+    p = 43
+    p += 1 + pkt[p]
+    p += 2 + ((pkt[p] << 8) | pkt[p + 1])
+    p += 1 + pkt[p]
+    ext_len_at = p
+    end = p + 2 + ((pkt[p] << 8) | pkt[p + 1])
+    p += 2
+    exts = []
+    while p + 4 <= end:
+        typ = (pkt[p] << 8) | pkt[p + 1]
+        ln = (pkt[p + 2] << 8) | pkt[p + 3]
+        exts.append((typ, bytes(pkt[p + 4:p + 4 + ln])))
+        p += 4 + ln
+    ks = [e for e in exts if e[0] == 0x33]
+    if not ks or len(ks[0][1]) <= k:
+        return None
+    exts = [e for e in exts if e[0] != 0x33] + [(0x33, ks[0][1][:len(ks[0][1]) - k])]
+    body = b''.join(bytes([t >> 8, t & 255, len(d) >> 8, len(d) & 255]) + d for t, d in exts)
+    hs = bytes(pkt[9:ext_len_at]) + bytes([len(body) >> 8, len(body) & 255]) + body
+    hl = len(hs)
+    rec = bytes(pkt[5:6]) + bytes([(hl >> 16) & 255, (hl >> 8) & 255, hl & 255]) + hs
+    return bytes(pkt[0:3]) + bytes([len(rec) >> 8, len(rec) & 255]) + rec
+
+
 def forge_packet(kind, template, u, block):
     """a first packet shaped like `template` (a genuine one) carrying ephemeral value u and the 64-byte block"""
     assert len(u) == 32 and len(block) == 64
@@ -331,6 +360,12 @@ def build_cases(ctx, packets):
                 i = rng.randrange(len(m))
                 m[i] = rng.randrange(256) if rng.random() < 0.5 else m[i] ^ (1 << rng.randrange(8))
             add('cloak/mutated', m, may=True)     # a mutation outside the sealed payload may still be a valid handshake
+        # key_share as the LAST extension, promising more key bytes than the hello holds
+        if kind == 'tls':
+            for k in (1, 2, 16, 22, 31, 32, 33, 36):
+                m = keyshare_last_and_cut(pkt, k)
+                if m is not None:
+                    add('cloak/keyshare-cut', m, may=False)
         # length fields specifically
         if kind == 'tls':
             for off in (3, 4, 6, 7, 8, 43, 76, 77):
